@@ -68,6 +68,7 @@ def load_module(modname):
 
 def find_function(qualname):
     """qualname: package.module.func or package.module.Class.method -> (module_info, FunctionDef, class or None)"""
+    qualname = qualname.split('#')[0]      # 'pkg.mod.func#view' : several contracts (views) of one function
     parts = qualname.split('.')
     for cut in range(len(parts) - 1, 0, -1):
         modname = '.'.join(parts[:cut])
@@ -94,7 +95,7 @@ class Contract:
                  mode='full', tracked=(), properties=(), self_type=None, lemmas=(),
                  min_obligations=1, trusted=False, note='', unexpected_exceptions='obligation',
                  decreases=None, ghost=None, inline_asserts=None, skip=False,
-                 native=None, assumptions=()):
+                 native=None, assumptions=(), volatile=None, env_assumes=()):
         self.qualname = qualname
         self.params = dict(params or {})
         self.returns = returns
@@ -118,6 +119,8 @@ class Contract:
         self.ghost = dict(ghost or {})
         self.inline_asserts = dict(inline_asserts or {})
         self.native = native
+        self.volatile = dict(volatile or {})      # param -> [record fields whose value is volatile]
+        self.env_assumes = list(env_assumes)      # assumptions about the environment (never asserted)
         self.assumptions = list(assumptions)
         self._parsed = {}
 
